@@ -207,6 +207,7 @@ Proof.
       apply filter_In. split; [exact Hc2 | rewrite Hc1; exact Hne].
   - destruct (coll_id s coll); exact Hs.
   - exact Hs.
+  - destruct (coll_id s coll); exact Hs.
   - pose proof (expire_colls_tables x (map fst (s_colls s)) s [] (fun c H => H) Hs) as H.
     destruct (expire_colls s x (map fst (s_colls s)) []) as [s' evs]. exact H.
 Qed.
@@ -523,3 +524,69 @@ Proof.
     unfold sspair_eqb in Eq. cbn in Eq. rewrite !String.eqb_refl in Eq. discriminate.
   - cbn [sr_store] in Ec'. rewrite Ec0 in Ec'. inversion Ec'; subst. apply kv_view_eqb_refl_obs.
 Qed.
+
+(* ------------------------------------------------------------------------------------------ *)
+(* C19: $_keyspace ranges over exactly the documents of the collection that have a body, once each *)
+
+Theorem keyspace_spec s cid k v xs : tables_ok s ->
+  (In (k, v, xs) (keyspace s cid) <->
+   exists r, get_doc s (cid, k) = Some r /\ r_value r = Some v /\ xs = xlist (r_xattrs r)).
+Proof.
+  intros Hs. unfold keyspace. rewrite in_flat_map. split.
+  - intros ([[c k'] r] & Hin & Hd). cbn [fst snd] in Hd. destruct (N.eqb_spec c cid) as [->|]; [|destruct Hd].
+    destruct (r_value r) as [v'|] eqn:Ev; [|destruct Hd]. destruct Hd as [E|[]]. inversion E; subst.
+    exists r. repeat split; [|exact Ev]. unfold get_doc. apply (In_alookup dkey_eqb dkey_eqb_spec); [apply Hs | exact Hin].
+  - intros (r & Hg & Hv & ->). exists ((cid, k), r). split.
+    + unfold get_doc in Hg. apply (alookup_In dkey_eqb dkey_eqb_spec). exact Hg.
+    + cbn [fst snd]. rewrite N.eqb_refl, Hv. left. reflexivity.
+Qed.
+
+Lemma keyspace_ids_nodup_aux cid (l : list (dkey * row)) : NoDup (akeys l) ->
+  NoDup (map (fun d : qdoc => fst (fst d))
+             (flat_map (fun d : dkey * row =>
+                if fst (fst d) =? cid then
+                  match r_value (snd d) with
+                  | Some v => [(snd (fst d), v, match xparse (r_xattrs (snd d)) with Some m => m | None => [] end)]
+                  | None => []
+                  end
+                else []) l)).
+Proof.
+  induction l as [|[[c k] r] rest IH]; cbn [flat_map map akeys]; intros Hnd; [constructor|].
+  inversion Hnd as [|? ? Hn Hr]; subst. specialize (IH Hr). cbn [fst snd].
+  destruct (N.eqb_spec c cid) as [->|]; [|exact IH]. destruct (r_value r); [|exact IH].
+  cbn [app map fst]. constructor; [|exact IH].
+  intros Hin. apply in_map_iff in Hin. destruct Hin as ([[k' v'] xs'] & Hk & Hin). cbn in Hk. subst k'.
+  apply in_flat_map in Hin. destruct Hin as ([[c2 k2] r2] & Hin2 & Hd). cbn [fst snd] in Hd.
+  destruct (N.eqb_spec c2 cid) as [->|]; [|destruct Hd]. destruct (r_value r2); [|destruct Hd].
+  destruct Hd as [E|[]]. inversion E; subst. apply Hn. apply in_map_iff. exists ((cid, k), r2). auto.
+Qed.
+
+Theorem keyspace_each_once s cid : tables_ok s -> NoDup (map (fun d : qdoc => fst (fst d)) (keyspace s cid)).
+Proof. intros Hs. apply keyspace_ids_nodup_aux. apply Hs. Qed.
+
+Lemma insert_by_id_In d l x : In x (insert_by_id d l) <-> x = d \/ In x l.
+Proof.
+  induction l as [|d' r IH]; cbn; [intuition|].
+  destruct (String.compare (fst (fst d)) (fst (fst d'))); cbn; rewrite ?IH; intuition.
+Qed.
+
+Theorem sort_by_id_In l x : In x (sort_by_id l) <-> In x l.
+Proof.
+  unfold sort_by_id. assert (forall acc, In x (fold_left (fun a d => insert_by_id d a) l acc) <-> In x l \/ In x acc) as H.
+  { induction l as [|d r IH]; intros acc; cbn [fold_left]; [cbn; intuition|]. rewrite IH, insert_by_id_In. cbn. intuition. }
+  rewrite H. cbn. intuition.
+Qed.
+
+Theorem sort_by_id_length l : List.length (sort_by_id l) = List.length l.
+Proof.
+  unfold sort_by_id. assert (forall acc, List.length (fold_left (fun a d => insert_by_id d a) l acc) = (List.length l + List.length acc)%nat) as H.
+  { induction l as [|d r IH]; intros acc; cbn [fold_left]; [reflexivity|]. rewrite IH.
+    assert (List.length (insert_by_id d acc) = S (List.length acc)) as ->; [|cbn; lia].
+    induction acc as [|a r' IHa]; cbn; [reflexivity|]. destruct (String.compare _ _); cbn; try reflexivity; rewrite IHa; reflexivity. }
+  rewrite H. cbn. lia.
+Qed.
+
+(* a query therefore never sees a tombstone or another collection's document *)
+Corollary keyspace_no_tombstone_no_foreign s cid k v xs : tables_ok s -> In (k, v, xs) (keyspace s cid) ->
+  exists r, get_doc s (cid, k) = Some r /\ r_value r <> None.
+Proof. intros Hs H. apply (keyspace_spec s cid k v xs Hs) in H. destruct H as (r & Hg & Hv & _). exists r. split; [exact Hg | congruence]. Qed.
